@@ -8,6 +8,7 @@ import M3d.Lemmas.MeshDiagSweep
 import M3d.Lemmas.MeshDiagHist
 import M3d.Lemmas.MeshDiagCycle
 import M3d.Lemmas.MeshDiagHier2
+import M3d.Lemmas.MeshDiagProbe
 /-!
 # C11 — mesh diagnostics, repair and nesting agree with their definitions
 
@@ -1050,5 +1051,321 @@ example :
       some ([(0,1),(1,2),(2,0),(3,4),(4,3)], [0,3]) ∧
     (meshToHierarchy2 enc enc [0,1,2] [(0,1),(2,1),(2,0)]).isNone = true := by
   decide
+
+/-! ## The probe point of `RepairNormals`
+
+`RepairNormals(epsilon)` asks the even–odd solid about ONE point per face: "adding the normal,
+scaled by epsilon, to the center of the segment" (doc comment).  `repair_normals2_restores` /
+`repair_normals_restores` take the answers as an oracle; the theorems below are about the POINT. -/
+
+section probe
+variable {K : Type} [Field K] [LinearOrder K] [IsStrictOrderedRing K]
+
+/-- **The probe of `model2d.Mesh.RepairNormals` is `epsilon` off the midpoint, on the left,
+whatever the length of the segment.**  With an exact square root (`L = |s| > 0`) the point
+`center.Add(normal.Scale(epsilon))` of the source is the point of the normal line through the
+midpoint at parameter `epsilon / L` (units of the left vector `(-dy, dx)`); its squared distance
+from the midpoint is `epsilon²` — the length of the segment cancels —, it projects onto the
+midpoint, and it lies on the left of the directed segment (cross product `epsilon · L > 0` for
+`epsilon > 0`), the side the normal points to. -/
+theorem repair_normals2_probe_is_epsilon_off_the_midpoint (sqrt : K → K) (half eps : K) (s : GSeg K)
+    (hh : half * 2 = 1)
+    (hsq : vnorm2 sqrt (segLeft s) * vnorm2 sqrt (segLeft s) = (segLeft s).normSq)
+    (hpos : 0 < vnorm2 sqrt (segLeft s)) :
+    probeDoc sqrt half eps s = probeAt half (eps / vnorm2 sqrt (segLeft s)) s ∧
+    ((probeDoc sqrt half eps s).sub (segMid half s)).normSq = eps * eps ∧
+    (s.2.sub s.1).dot ((probeDoc sqrt half eps s).sub (segMid half s)) = 0 ∧
+    (s.2.sub s.1).cross ((probeDoc sqrt half eps s).sub s.1) = eps * vnorm2 sqrt (segLeft s) := by
+  refine ⟨probeDoc_eq_probeAt sqrt half eps s, probeDoc_dist_sq sqrt half eps s hsq hpos.ne', ?_, ?_⟩
+  · rw [probeDoc_eq_probeAt]; exact (probeAt_left half _ hh s).2
+  · rw [probeDoc_eq_probeAt, (probeAt_left half _ hh s).1, ← segLeft_normSq, ← hsq]
+    field_simp
+
+/-- **Dropping the normalisation moves the probe `epsilon · |s|` away** (the seeded change C11-11:
+`s.Mid().Add(XY(-delta.Y, delta.X).Scale(epsilon))`).  That point is the documented probe for the
+epsilon `epsilon · |s|`: its squared distance from the midpoint is `epsilon² |s|²`, so it is the
+documented point only for segments of length 1. -/
+theorem repair_normals2_unnormalised_probe_is_epsilon_times_length_off (sqrt : K → K) (half eps : K)
+    (s : GSeg K) (hpos : 0 < vnorm2 sqrt (segLeft s)) :
+    probeAt half eps s = probeDoc sqrt half (eps * vnorm2 sqrt (segLeft s)) s ∧
+    ((probeAt half eps s).sub (segMid half s)).normSq = eps * eps * (s.2.sub s.1).normSq :=
+  ⟨probeAt_eq_probeDoc_scaled sqrt half eps s hpos.ne', probeAt_dist_sq half eps s⟩
+
+/-- 3-D twin: `center.Add(normal.Scale(epsilon))` of `model3d.Mesh.RepairNormals` is the point of
+the normal line through the centroid at parameter `epsilon / |cross|`; `probeAt3 τ` lies at squared
+distance `τ² |cross|²` from the centroid (so the probe of the source is `epsilon` away, a probe
+without normalisation `epsilon ·` twice the area). -/
+theorem repair_normals3_probe_is_epsilon_off_the_centroid (sqrt : K → K) (third eps : K) (t : GTri K)
+    (hsq : vnorm3 sqrt (triCross t) * vnorm3 sqrt (triCross t) = vdot (triCross t) (triCross t))
+    (hpos : 0 < vnorm3 sqrt (triCross t)) :
+    probeDoc3 sqrt third eps t = probeAt3 third (eps / vnorm3 sqrt (triCross t)) t ∧
+    vdot (v3sub (probeDoc3 sqrt third eps t) (triCentre third t))
+      (v3sub (probeDoc3 sqrt third eps t) (triCentre third t)) = eps * eps := by
+  refine ⟨probeDoc3_eq_probeAt3 sqrt third eps t, ?_⟩
+  rw [probeDoc3_eq_probeAt3, probeAt3_dist_sq, ← hsq]
+  field_simp
+
+/-- **Between two points of the normal line the even–odd answer can only change where the mesh
+crosses the line.**  The crossings of the ray from the point at parameter `τ` of a line, along the
+line, are the crossings of the line at a parameter `> τ`; if no segment crosses the normal line of
+`g` at a parameter in `(0, T]` (`clearUpTo`), every probe `probeAt τ g` with `0 < τ ≤ T` gets the
+same answer.  This is what "just off the segment" means: the answer of `RepairNormals` for a
+segment is the even–odd status of the region to the left of its midpoint, as long as the probe
+stays inside the clearance. -/
+theorem probe_parity_constant_within_clearance (half : K) (geo : List (GSeg K)) (g : GSeg K)
+    (T τ₁ τ₂ : K) (hclear : clearUpTo half geo g T = true)
+    (h1 : 0 < τ₁ ∧ τ₁ ≤ T) (h2 : 0 < τ₂ ∧ τ₂ ≤ T) :
+    evenOddRay geo (probeAt half τ₁ g) (segLeft g) = evenOddRay geo (probeAt half τ₂ g) (segLeft g) :=
+  evenOddRay_probeAt_eq half geo g T τ₁ τ₂ hclear h1 h2
+
+/-- Non-vacuity, and what happens beyond the clearance: the 1000 × 1 plate with the bottom side
+`(0,0) → (1000,0)` (left = up = into the plate).  The line is clear up to parameter `1/2000` (half
+the thickness), the probes at `1/100000` (ε = 1/100 normalised) and `1/2000` are both inside; the
+probe at parameter `1/100` (ε not normalised: the point `(500, 10)`) is outside. -/
+example :
+    let geo : List (GSeg Rat) := [(⟨0,0⟩, ⟨1000,0⟩), (⟨1000,0⟩, ⟨1000,1⟩), (⟨1000,1⟩, ⟨0,1⟩), (⟨0,1⟩, ⟨0,0⟩)]
+    let g : GSeg Rat := (⟨0,0⟩, ⟨1000,0⟩)
+    clearUpTo (1/2) geo g (1/2000) = true ∧ clearUpTo (1/2) geo g (1/100) = false ∧
+    evenOddRay geo (probeAt (1/2) (1/100000) g) (segLeft g) = true ∧
+    evenOddRay geo (probeAt (1/2) (1/2000) g) (segLeft g) = true ∧
+    probeAt (1/2) (1/100) g = ⟨500, 10⟩ ∧
+    evenOddRay geo (probeAt (1/2) (1/100) g) (segLeft g) = false := by
+  decide +kernel
+
+/-- **`RepairNormals` does not depend on the offset as long as every probe stays inside the
+clearance of its segment.**  `contains` is the solid the code asks (`ColliderSolid.Contains`, a ray
+in one fixed direction); `hdir` says that on the clear stretches it gives the even–odd answer
+counted along the normal (independence of the ray direction: the collider's own correctness, C07;
+checked by the driver on every `rn2` case).  Then two versions of `RepairNormals` whose probes lie
+at parameters `τ₁ g`, `τ₂ g ∈ (0, T g]` return the same mesh and the same count.  Instances: the
+source (`τ = ε / |g|`, admissible iff `ε ≤ T g · |g|`, the Euclidean clearance), the point the
+driver evaluates (`τ = ε / (|n.x| + |n.y|) ≤ ε / |g|`, `l1_offset_le`), a version without
+normalisation (`τ = ε`, admissible only when `ε · |g|` is within the clearance). -/
+theorem repair_normals2_offset_irrelevant_within_clearance (half : K) (pos : Nat → Vec2 K)
+    (ss : List Seg) (contains : Vec2 K → Bool) (T τ₁ τ₂ : GSeg K → K)
+    (hclear : ∀ s ∈ ss, clearUpTo half (ss.map (geoOf pos)) (geoOf pos s) (T (geoOf pos s)) = true)
+    (hdir : ∀ s ∈ ss, ∀ τ, 0 < τ → τ ≤ T (geoOf pos s) →
+      contains (probeAt half τ (geoOf pos s)) =
+        evenOddRay (ss.map (geoOf pos)) (probeAt half τ (geoOf pos s)) (segLeft (geoOf pos s)))
+    (h₁ : ∀ s ∈ ss, 0 < τ₁ (geoOf pos s) ∧ τ₁ (geoOf pos s) ≤ T (geoOf pos s))
+    (h₂ : ∀ s ∈ ss, 0 < τ₂ (geoOf pos s) ∧ τ₂ (geoOf pos s) ≤ T (geoOf pos s)) :
+    repairNormals2At contains (fun g => probeAt half (τ₁ g) g) pos ss =
+      repairNormals2At contains (fun g => probeAt half (τ₂ g) g) pos ss := by
+  apply repairNormals2_congr
+  intro f hf
+  have hs := mem_of_mem_zip_range hf
+  simp only []
+  rw [hdir f.2 hs _ (h₁ f.2 hs).1 (h₁ f.2 hs).2, hdir f.2 hs _ (h₂ f.2 hs).1 (h₂ f.2 hs).2]
+  exact evenOddRay_probeAt_eq half _ _ _ _ _ (hclear f.2 hs) (h₁ f.2 hs) (h₂ f.2 hs)
+
+/-- **3-D twin of the clearance theorem** (`model3d.Mesh.RepairNormals`): `contains` is the solid
+the code asks; `hdir`: on the clear stretches it gives the even–odd count along the normal (for a
+normal line that meets no edge; direction independence is the collider's correctness, C07).  Two
+versions whose probes lie at parameters `τ₁ g, τ₂ g ∈ (0, T g]` of the normal line through the
+centroid (units of the cross product) return the same mesh and count.  The source uses
+`τ = ε / |cross|` (distance ε), a version without normalisation `τ = ε` (distance `ε ·` twice the
+area of the triangle). -/
+theorem repair_normals3_offset_irrelevant_within_clearance (third : K) (pos : Nat → Vec3 K)
+    (ts : List Tri) (contains : Vec3 K → Bool) (T τ₁ τ₂ : GTri K → K)
+    (hclear : ∀ t ∈ ts, clearUpTo3 third (ts.map (geoOf3 pos)) (geoOf3 pos t) (T (geoOf3 pos t)) = true)
+    (hdir : ∀ t ∈ ts, ∀ τ, 0 < τ → τ ≤ T (geoOf3 pos t) →
+      contains (probeAt3 third τ (geoOf3 pos t)) =
+        evenOddRay3 (ts.map (geoOf3 pos)) (probeAt3 third τ (geoOf3 pos t)) (triCross (geoOf3 pos t)))
+    (h₁ : ∀ t ∈ ts, 0 < τ₁ (geoOf3 pos t) ∧ τ₁ (geoOf3 pos t) ≤ T (geoOf3 pos t))
+    (h₂ : ∀ t ∈ ts, 0 < τ₂ (geoOf3 pos t) ∧ τ₂ (geoOf3 pos t) ≤ T (geoOf3 pos t)) :
+    repairNormals3At contains (fun g => probeAt3 third (τ₁ g) g) pos ts =
+      repairNormals3At contains (fun g => probeAt3 third (τ₂ g) g) pos ts := by
+  apply repairNormals_congr
+  intro f hf
+  have hs : f.2 ∈ ts := by
+    have : ∀ (l : List Tri) (n : Nat) (f : Face), f ∈ enumFrom n l → f.2 ∈ l := by
+      intro l
+      induction l with
+      | nil => intro n f h; simp [enumFrom] at h
+      | cons x xs ih =>
+        intro n f h
+        simp only [enumFrom, List.mem_cons] at h
+        rcases h with rfl | h
+        · exact List.mem_cons_self
+        · exact List.mem_cons_of_mem _ (ih _ _ h)
+    exact this ts 0 f hf
+  simp only []
+  rw [hdir f.2 hs _ (h₁ f.2 hs).1 (h₁ f.2 hs).2, hdir f.2 hs _ (h₂ f.2 hs).1 (h₂ f.2 hs).2]
+  exact evenOddRay3_probeAt3_eq third _ _ _ _ _ (hclear f.2 hs) (h₁ f.2 hs) (h₂ f.2 hs)
+
+/-- Non-vacuity / beyond the clearance in 3-D: a 1000 × 1000 × 1 slab (two big triangles per large
+face, the side walls left out of the count along this line); the bottom triangle
+`(0,0,0),(0,1000,0),(1000,0,0)` reversed so that its cross product points up: the stretch is clear up
+to `1/2000000` (half the thickness in units of the cross product `10⁶`), the probes at `ε/|cross|`
+are inside, the probe at parameter `ε = 1/100` is `10⁴` above the slab. -/
+example :
+    let geo : List (GTri Rat) := [(⟨0,0,0⟩, ⟨1000,0,0⟩, ⟨0,1000,0⟩), (⟨0,0,1⟩, ⟨1000,0,1⟩, ⟨0,1000,1⟩)]
+    let g : GTri Rat := (⟨0,0,0⟩, ⟨1000,0,0⟩, ⟨0,1000,0⟩)
+    clearUpTo3 (1/3) geo g (1/2000000) = true ∧ clearUpTo3 (1/3) geo g (1/100) = false ∧
+    evenOddRay3 geo (probeAt3 (1/3) (1/100000000) g) (triCross g) = true ∧
+    probeAt3 (1/3) (1/100) g = ⟨1000/3, 1000/3, 10000⟩ ∧
+    evenOddRay3 geo (probeAt3 (1/3) (1/100) g) (triCross g) = false := by
+  decide +kernel
+
+/-- The same for `RepairNormals` as its documentation words it (ray "in the direction of the
+normal"): no hypothesis on a collider is left. -/
+theorem repair_normals2_ray_offset_irrelevant_within_clearance (half : K) (pos : Nat → Vec2 K)
+    (ss : List Seg) (T τ₁ τ₂ : GSeg K → K)
+    (hclear : ∀ s ∈ ss, clearUpTo half (ss.map (geoOf pos)) (geoOf pos s) (T (geoOf pos s)) = true)
+    (h₁ : ∀ s ∈ ss, 0 < τ₁ (geoOf pos s) ∧ τ₁ (geoOf pos s) ≤ T (geoOf pos s))
+    (h₂ : ∀ s ∈ ss, 0 < τ₂ (geoOf pos s) ∧ τ₂ (geoOf pos s) ≤ T (geoOf pos s)) :
+    repairNormals2Ray half τ₁ pos ss = repairNormals2Ray half τ₂ pos ss := by
+  apply repairNormals2_congr
+  intro f hf
+  have hs := mem_of_mem_zip_range hf
+  exact evenOddRay_probeAt_eq half _ _ _ _ _ (hclear f.2 hs) (h₁ f.2 hs) (h₂ f.2 hs)
+
+/-- **The source's `RepairNormals` inside the clearance** (corollary for an exact square root): if
+`0 < ε ≤ T g · |g|` for every segment — ε does not exceed the Euclidean clearance — the source
+(`probeDoc`) returns what any version with admissible offsets returns, in particular what the driver
+computes with the offset `ε / (|n.x| + |n.y|)`. -/
+theorem repair_normals2_documented_probe_within_clearance (sqrt : K → K) (half eps : K)
+    (pos : Nat → Vec2 K) (ss : List Seg) (contains : Vec2 K → Bool) (T : GSeg K → K) (heps : 0 < eps)
+    (hsq : ∀ s ∈ ss, vnorm2 sqrt (segLeft (geoOf pos s)) * vnorm2 sqrt (segLeft (geoOf pos s)) =
+      (segLeft (geoOf pos s)).normSq)
+    (hpos : ∀ s ∈ ss, 0 < vnorm2 sqrt (segLeft (geoOf pos s)))
+    (hclear : ∀ s ∈ ss, clearUpTo half (ss.map (geoOf pos)) (geoOf pos s) (T (geoOf pos s)) = true)
+    (hdir : ∀ s ∈ ss, ∀ τ, 0 < τ → τ ≤ T (geoOf pos s) →
+      contains (probeAt half τ (geoOf pos s)) =
+        evenOddRay (ss.map (geoOf pos)) (probeAt half τ (geoOf pos s)) (segLeft (geoOf pos s)))
+    (hT : ∀ s ∈ ss, eps / vnorm2 sqrt (segLeft (geoOf pos s)) ≤ T (geoOf pos s)) :
+    repairNormals2At contains (probeDoc sqrt half eps) pos ss =
+      repairNormals2At contains
+        (fun g => probeAt half (eps / (|(segLeft g).x| + |(segLeft g).y|)) g) pos ss := by
+  have hdoc : repairNormals2At contains (probeDoc sqrt half eps) pos ss =
+      repairNormals2At contains (fun g => probeAt half (eps / vnorm2 sqrt (segLeft g)) g) pos ss := by
+    apply repairNormals2_congr
+    intro f _
+    simp only [probeDoc_eq_probeAt]
+  rw [hdoc]
+  apply repair_normals2_offset_irrelevant_within_clearance half pos ss contains T _ _ hclear hdir
+  · intro s hs
+    exact ⟨div_pos heps (hpos s hs), hT s hs⟩
+  · intro s hs
+    have hle := l1_offset_le (vnorm2 sqrt (segLeft (geoOf pos s))) eps (segLeft (geoOf pos s)) (hpos s hs)
+      (hsq s hs) heps.le
+    refine ⟨div_pos heps ?_, le_trans hle (hT s hs)⟩
+    have hL := hpos s hs
+    have hsq' := hsq s hs
+    by_contra hcon
+    have h0 : |(segLeft (geoOf pos s)).x| + |(segLeft (geoOf pos s)).y| = 0 :=
+      le_antisymm (not_lt.1 hcon) (add_nonneg (abs_nonneg _) (abs_nonneg _))
+    have hx : (segLeft (geoOf pos s)).x = 0 := by
+      have := abs_nonneg (segLeft (geoOf pos s)).y
+      exact abs_eq_zero.1 (by linarith [abs_nonneg (segLeft (geoOf pos s)).x])
+    have hy : (segLeft (geoOf pos s)).y = 0 := by
+      have := abs_nonneg (segLeft (geoOf pos s)).x
+      exact abs_eq_zero.1 (by linarith [abs_nonneg (segLeft (geoOf pos s)).y])
+    simp only [Vec2.normSq, hx, hy, mul_zero, add_zero] at hsq'
+    have : vnorm2 sqrt (segLeft (geoOf pos s)) = 0 := by
+      rcases mul_eq_zero.1 hsq' with h | h <;> exact h
+    linarith
+
+/-- **`RepairNormals` restores a correctly oriented mesh from any re-orientation of its segments, as
+long as every probe stays inside the clearance of its segment** (the geometric form of
+`repair_normals2_restores`: the oracle is now the solid asked about the probe POINT).  `orig` is
+any mesh whose normals point out of the solid (`hout`: the probe of every segment is not contained),
+`bad` marks the segments that were reversed.  Hypotheses: the offsets `τ g ∈ (0, T g]` do not depend
+on the direction of the segment (`ε / |g|` does not); within the parameters `(−T g, T g]` the
+segment itself is the only thing that crosses its normal line (`hone`: clearance on BOTH sides);
+on that stretch the solid answers like the even–odd count along the normal (`hdir`: the collider
+does not look at the orientation of the segments, and its parity does not depend on the ray
+direction — C07; checked by the driver on every `rn2` case).  Then `RepairNormals` of the damaged
+mesh returns `orig` and the number of reversed segments: the probe of a reversed segment is the
+mirror image of the original probe (`probeAt_swapG`), the ray between the two crosses exactly the
+segment itself, so the answers are opposite (`evenOddRay_flip_across`). -/
+theorem repair_normals2_restores_within_clearance (half : K) (hh : half * 2 = 1) (pos : Nat → Vec2 K)
+    (orig : List Seg) (bad : Nat → Bool) (contains : Vec2 K → Bool) (T τ : GSeg K → K)
+    (hne : ∀ s ∈ orig, 0 < ((geoOf pos s).2.sub (geoOf pos s).1).normSq)
+    (hτ : ∀ s ∈ orig, 0 < τ (geoOf pos s) ∧ τ (geoOf pos s) ≤ T (geoOf pos s))
+    (hτsym : ∀ s ∈ orig, τ (swapG (geoOf pos s)) = τ (geoOf pos s))
+    (hone : ∀ s ∈ orig, (lineHitsIn (orig.map (geoOf pos)) (segMid half (geoOf pos s))
+      (segLeft (geoOf pos s)) (-(T (geoOf pos s))) (T (geoOf pos s))).length = 1)
+    (hdir : ∀ s ∈ orig, ∀ t, -(T (geoOf pos s)) ≤ t → t ≤ T (geoOf pos s) → t ≠ 0 →
+      contains (probeAt half t (geoOf pos s)) =
+        evenOddRay (orig.map (geoOf pos)) (probeAt half t (geoOf pos s)) (segLeft (geoOf pos s)))
+    (hout : ∀ s ∈ orig, contains (probeAt half (τ (geoOf pos s)) (geoOf pos s)) = false) :
+    repairNormals2At contains (fun g => probeAt half (τ g) g) pos
+        (((List.range orig.length).zip orig).map fun f => if bad f.1 then swap f.2 else f.2) =
+      (orig, ((List.range orig.length).zip orig).countP fun f => bad f.1) := by
+  have hcongr : repairNormals2At contains (fun g => probeAt half (τ g) g) pos
+        (((List.range orig.length).zip orig).map fun f => if bad f.1 then swap f.2 else f.2) =
+      repairNormals2 (fun f => bad f.1)
+        (((List.range orig.length).zip orig).map fun f => if bad f.1 then swap f.2 else f.2) := by
+    apply repairNormals2_congr
+    intro f hf
+    obtain ⟨p, hp, rfl⟩ := mem_zip_damaged hf
+    have hs : p.2 ∈ orig := (List.of_mem_zip hp).2
+    have hτs := hτ p.2 hs
+    cases hb : bad p.1
+    · simp only [hb, Bool.false_eq_true, if_false]
+      exact hout p.2 hs
+    · simp only [hb, if_true, geoOf_swap, hτsym p.2 hs, probeAt_swapG]
+      rw [hdir p.2 hs _ (by linarith [hτs.2]) (by linarith [hτs.1, hτs.2]) (by linarith [hτs.1]),
+        evenOddRay_flip_across half hh _ _ (List.mem_map.2 ⟨p.2, hs, rfl⟩) (hne p.2 hs) _ _ hτs (hone p.2 hs),
+        ← hdir p.2 hs _ (by linarith [hτs.1, hτs.2]) hτs.2 hτs.1.ne', hout p.2 hs]
+      rfl
+  rw [hcongr]
+  exact Prod.ext (repair_normals2_restores orig bad).1 (repair_normals2_restores orig bad).2
+
+/-- Non-vacuity (every hypothesis holds, nothing is assumed about a collider): the single segment
+`(0,0) → (4,0)` as `orig`, the solid "odd number of crossings along the normal", `τ = 1/4`,
+`T = 1`; reversed, it is turned back. -/
+example :
+    let pos : Nat → Vec2 Rat := fun i => if i = 0 then ⟨0, 0⟩ else ⟨4, 0⟩
+    let solid : Vec2 Rat → Bool := fun p => evenOddRay [(⟨0, 0⟩, ⟨4, 0⟩)] p ⟨0, 4⟩
+    repairNormals2At solid (fun g => probeAt (1/2) (1/4) g) pos [(1, 0)] = ([(0, 1)], 1) ∧
+    (lineHitsIn [((⟨0, 0⟩, ⟨4, 0⟩) : GSeg Rat)] (segMid (1/2) (⟨0, 0⟩, ⟨4, 0⟩)) (segLeft (⟨0, 0⟩, ⟨4, 0⟩)) (-1) 1).length = 1 ∧
+    solid (probeAt (1/2) (1/4) (⟨0, 0⟩, ⟨4, 0⟩)) = false := by
+  decide +kernel
+
+/-- **A closed oriented curve crosses every line an even number of times, so the even–odd answer
+along a line does not depend on which way one counts.**  For `Surface.InOutOne` soups (`Manifold()`
+and no inconsistent vertex, `in_out_one_iff_clean2`) in ANY position — self-crossing or not — and
+every line, the number of segments with one end strictly to the left of the line and the other not
+is even; hence, for a point that is not itself on a crossing, the crossings in front of it and the
+crossings behind it have the same parity.  (One instance of the direction independence that `hdir`
+of the clearance theorems assumes of the collider: opposite directions with the same side rule.) -/
+theorem closed_curves_cross_every_line_evenly (pos : Nat → Vec2 K) (ss : List Seg) (hio : InOutOne ss)
+    (p d : Vec2 K) :
+    ((ss.map (geoOf pos)).filter (crossesLine p d)).length % 2 = 0 ∧
+    ((∀ g ∈ ss.map (geoOf pos), crossesLine p d g = true → hitParam p d g ≠ 0) →
+      evenOddRay (ss.map (geoOf pos)) p d =
+        (((ss.map (geoOf pos)).filter fun g => crossesLine p d g && decide (hitParam p d g < 0)).length % 2 == 1)) :=
+  ⟨crossings_even_of_inOutOne pos ss hio p d, evenOddRay_eq_backward pos ss hio p d⟩
+
+/-- Non-vacuity: the unit square, the line through `(1/2, 1/3)` along `(1, 1/7)` crosses two sides;
+one in front, one behind: inside both ways.  An open polyline has an odd crossing count. -/
+example :
+    let pos : Nat → Vec2 Rat := fun i => [⟨0,0⟩, ⟨1,0⟩, ⟨1,1⟩, ⟨0,1⟩].getD i ⟨0,0⟩
+    inOutOne [(0,1),(1,2),(2,3),(3,0)] = true ∧
+    (([(0,1),(1,2),(2,3),(3,0)].map (geoOf pos)).filter (crossesLine ⟨1/2, 1/3⟩ ⟨1, 1/7⟩)).length = 2 ∧
+    evenOddRay ([(0,1),(1,2),(2,3),(3,0)].map (geoOf pos)) ⟨1/2, 1/3⟩ ⟨1, 1/7⟩ = true ∧
+    (([(0,1),(1,2),(2,3)].map (geoOf pos)).filter (crossesLine ⟨1/2, 1/3⟩ ⟨1, 1/7⟩)).length = 1 := by
+  decide +kernel
+
+/-- **C11-11 at model level** (the 1000 × 1 plate with all four sides reversed, `epsilon = 1/100`,
+the even–odd solid counted along a fixed direction): with the probe of the source all four
+segments are reversed and the result is the outward-oriented closed curve; with the probe that is
+not normalised the two long sides get the probes `(500, 10)` and `(500, −9)` — outside the plate —
+and are kept: two flips, and the result is not consistently oriented. -/
+theorem repair_normals2_unnormalised_probe_unsound :
+    let pos : Nat → Vec2 Rat := fun i => [⟨0,0⟩, ⟨1000,0⟩, ⟨1000,1⟩, ⟨0,1⟩].getD i ⟨0,0⟩
+    let dmg : List Seg := [(3,0),(2,3),(1,2),(0,1)]
+    let sqrt : Rat → Rat := fun x => if x = 1000000 then 1000 else 1
+    let solid := evenOddSolid pos dmg ⟨1, 1/3⟩
+    repairNormals2At solid (probeDoc sqrt (1/2) (1/100)) pos dmg = ([(0,3),(3,2),(2,1),(1,0)], 4) ∧
+    closedCurves [(0,3),(3,2),(2,1),(1,0)] = true ∧
+    repairNormals2At solid (probeAt (1/2) (1/100)) pos dmg = ([(0,3),(2,3),(2,1),(0,1)], 2) ∧
+    closedCurves [(0,3),(2,3),(2,1),(0,1)] = false ∧
+    (dmg.map fun s => probeAt (1/2) (1/100) (geoOf pos s)) = [⟨1/100, 1/2⟩, ⟨500, -9⟩, ⟨99999/100, 1/2⟩, ⟨500, 10⟩] := by
+  decide +kernel
+
+end probe
 
 end M3d.C11
